@@ -7,6 +7,7 @@ scanRawString and the comment loops).  The grammar (goyacc tables) is not modell
 part of the property is decided by the correspondence stream only.
 -/
 import Anko.Proofs.Scanner
+import Anko.Proofs.ScanConcat
 import Anko.Gen.ParserGen
 
 namespace Anko.C15
@@ -112,8 +113,67 @@ theorem back_undoes_next (s : S) (c : Char) (hp : s.peek = some c) (hc : c ≠ '
 state outside the scanner value, which `lex` creates afresh). -/
 theorem lex_deterministic (a b : String) (h : a = b) : lex a = lex b := by rw [h]
 
+/-! ### compositionality of the token stream -/
+
+/-- If two texts each scan without error, their concatenation with a newline scans to the tokens
+of the first (its EOF replaced by the newline token, at the same position), followed by the
+tokens of the second with every position shifted by the first text's line count - for all texts.
+(The grammar's part of the statement - statement lists are appended - is decided by the
+concatenation oracle of the `lex` stream.) -/
+theorem lex_concat (A B : String) (hA : (lex A).2 = none) (hB : (lex B).2 = none) :
+    ∃ (front : List Token) (p : Pos), (lex A).1 = front ++ [⟨.eof, p⟩] ∧
+      lex (A ++ "\n" ++ B) = (front ++ [⟨.ch '\n', p⟩] ++ (lex B).1.map (shiftTok p.line), none) := by
+  unfold lex at *
+  simp only at hA hB ⊢
+  generalize hAa : A.toList.toArray = Aa at hA ⊢
+  generalize hBa : B.toList.toArray = Ba at hB ⊢
+  have hsrc : (A ++ "\n" ++ B).toList.toArray = #[] ++ Aa ++ (#['\n'] ++ Ba) := by
+    rw [← hAa, ← hBa]; simp
+  rw [hsrc]
+  have hsz : (#[] ++ Aa ++ (#['\n'] ++ Ba)).size + 2 = (Aa.size + 2) + (Ba.size + 1) := by simp; omega
+  rw [hsz]
+  -- the first text seen as a prefix
+  have w0 : Win #[] (#['\n'] ++ Ba) 0 ⟨Aa, 0, 0, 0⟩ ⟨#[] ++ Aa ++ (#['\n'] ++ Ba), 0, 0, 0⟩ :=
+    ⟨rfl, rfl, rfl, rfl, Nat.zero_le _⟩
+  have hb0 : (#['\n'] ++ Ba)[0]? = some '\n' := by
+    rw [Array.getElem?_append_left (by simp)]; rfl
+  obtain ⟨front, s', t', hfront, w', hpk, hi', hsrc', hk⟩ :=
+    win_lexAll_prefix hb0 (Aa.size + 2) ⟨Aa, 0, 0, 0⟩ _ w0 (inv_init Aa) hA
+  refine ⟨front, s'.pos, hfront, ?_⟩
+  rw [hk (Ba.size + 1)]
+  have hsA : s'.src = Aa := hsrc'
+  -- the end of the first text: the cursor of the outer scan stands on the newline
+  have hoff : s'.offset = Aa.size := by
+    have h1 := peek_none_ge hpk
+    have h2 := hi'.le
+    rw [hsA] at h1 h2; omega
+  have htpk : t'.peek = some '\n' := by rw [w'.peek_none hpk]; exact hb0
+  have htsrc : t'.src = (Aa ++ #['\n']) ++ Ba ++ #[] := by rw [w'.src, hsA]; simp
+  have htoff : t'.offset = Aa.size := by rw [w'.off, hoff]; simp
+  have htl := peek_some_lt htpk
+  have hnext : t'.next = ⟨t'.src, t'.offset + 1, t'.offset + 1, t'.line + 1⟩ := by
+    unfold S.next S.reachEOF
+    have e : decide (t'.src.size ≤ t'.offset) = false := by simpa using htl
+    simp [e, htpk]
+  -- the second text seen through the window that starts after the newline
+  have wB : Win (Aa ++ #['\n']) #[] s'.pos.line ⟨Ba, 0, 0, 0⟩ t'.next := by
+    rw [hnext]
+    refine ⟨htsrc, by simp [htoff], by simp [htoff], ?_, Nat.zero_le _⟩
+    simp [S.pos, w'.line]
+  have hemb := win_lexAll_embedded (Ba.size + 2) ⟨Ba, 0, 0, 0⟩ t'.next wB (inv_init Ba) hB
+  -- enough fuel is left for the second text
+  have hlen := lexAll_length (Aa.size + 2) ⟨Aa, 0, 0, 0⟩ (inv_init Aa) hA
+  rw [hfront] at hlen
+  simp only [List.length_append, List.length_cons, List.length_nil, rem] at hlen
+  have hfuel : ∃ k, Aa.size + 2 + (Ba.size + 1) - (front.length + 1) = (Ba.size + 2) + k :=
+    ⟨Aa.size + 2 + (Ba.size + 1) - (front.length + 1) - (Ba.size + 2), by simp at hlen; omega⟩
+  obtain ⟨k, hk2⟩ := hfuel
+  rw [hk2, lexAll_mono (Ba.size + 2) k t'.next [] (by rw [hemb]), hemb]
+
 /-! ### Non-vacuity and sample evaluations -/
 example : (lex "a /* x **/ + 1\n\"s\"").2 = none := by decide +kernel
+example : (lex "x = 1 // c").2 = none ∧ (lex "y").2 = none ∧
+    ((lex "x = 1 // c\ny").1.map (·.pos)) = [⟨1, 1⟩, ⟨1, 3⟩, ⟨1, 5⟩, ⟨1, 11⟩, ⟨2, 1⟩, ⟨2, 2⟩] := by decide +kernel
 example : ((lex "a /* x **/ + 1\n\"s\"").1.map (·.pos)) = [⟨1, 1⟩, ⟨1, 12⟩, ⟨1, 14⟩, ⟨1, 15⟩, ⟨2, 1⟩, ⟨2, 4⟩] := by decide +kernel
 example : (lex "x = \"abc").2 = some (.msg "unexpected EOF", ⟨1, 5⟩) := by decide +kernel
 example : (lex "/* never closed").2 = some (.msg "unexpected EOF", ⟨1, 1⟩) := by decide +kernel
